@@ -13,7 +13,7 @@ import numpy as np
 
 from ..core import (Violation, Reject, HarnessError, np_rng, elem_snapshot,
                     snapshot_equal_bits, fill_elem, fill_garbage, elem_arrays,
-                    elem_digest)
+                    elem_digest, guarded_layout)
 from .. import seams
 from .. import recipes as R
 from .. import spaces as SP
@@ -69,6 +69,10 @@ ASSUMPTIONS = {
 }
 
 NOBIT_RECIPES = ('DFT', 'FT')        # FFTW plan choice may differ per call
+# finite differences divide rounding noise of the functional by h ~ 1.5e-8,
+# and the last bit of a BLAS norm depends on the 16-byte alignment of the data
+# (an element wrapping a view vs. the replica's fresh copy)
+TOL_SCALE = {'NumericalGradient': 1e8}
 
 
 # --------------------------------------------------------------------------
@@ -92,6 +96,9 @@ def generate(prop, rng, tier):
         return plan
     ops = []
     n = rng.randint(4, 9)
+    # memory layout of the pool elements and of the out arguments: mostly
+    # contiguous, sometimes Fortran-ordered or a strided view
+    plan['xlay'] = [rng.choice(LAYOUTS) for _ in range(3)]
     for _ in range(n):
         if c10:
             t = rng.choices(['alias', 'oop', 'ip', 'scribble'],
@@ -102,6 +109,8 @@ def generate(prop, rng, tier):
         op = {'t': t, 'i': rng.randint(0, 2)}
         if t in ('ip', 'scribble', 'reject_out'):
             op['fill'] = rng.choice(GARBAGE)
+        if t in ('ip', 'alias'):
+            op['olay'] = rng.choice(LAYOUTS)
         if t == 'alias':
             op['j'] = rng.randint(0, 1)
         if t == 'reject_in':
@@ -113,7 +122,34 @@ def generate(prop, rng, tier):
     return plan
 
 
+LAYOUTS = ['C'] * 5 + ['F', 'strided', 'strided']
+
+
+def _relayout(x, lay):
+    """Same element, same values, wrapping an array of another memory layout
+    (inside guard zones, see core.guarded_layout)."""
+    if lay == 'C' or not SP.is_elem(x):
+        return x
+    o = R.odl()
+    sp = x.space
+    if isinstance(sp, o.ProductSpace):
+        return sp.element([_relayout(p, lay) for p in x.parts])
+    arrs = elem_arrays(x)
+    if len(arrs) != 1 or arrs[0].ndim == 0 or arrs[0].size == 0:
+        return x
+    return sp.element(guarded_layout(arrs[0], lay))
+
+
 def simplify(prop, plan):
+    if any(l != 'C' for l in plan.get('xlay', [])):
+        c = copy.deepcopy(plan)
+        c['xlay'] = ['C'] * len(plan['xlay'])
+        yield c
+    for i, op in enumerate(plan.get('ops', [])):
+        if op.get('olay', 'C') != 'C':
+            c = copy.deepcopy(plan)
+            c['ops'][i]['olay'] = 'C'
+            yield c
     for i, op in enumerate(plan.get('ops', [])):
         if op.get('fill') not in (None, 'huge', 'zero'):
             c = copy.deepcopy(plan)
@@ -182,6 +218,10 @@ class Run(object):
         scale = cfg.get('scale', 1.0)
         with seams.allocator('zero'):
             self.xs = [SP.rand_elem(op.domain, g, scale, pos) for _ in range(3)]
+            for i_, lay in enumerate(self.plan.get('xlay', [])[:3]):
+                if lay != 'C':
+                    self.xs[i_] = _relayout(self.xs[i_], lay)
+                    self.ctx.fired('layout-x-' + lay)
         self.nobit = cfg['recipe'] in NOBIT_RECIPES
         self.is_functional = op.is_functional
 
@@ -206,7 +246,7 @@ class Run(object):
     def tol(self, *things):
         eps = SP.eps_for(*things)
         mag = sum(SP.magnitude(t) for t in things) + 1.0
-        return 1e4 * eps * mag
+        return 1e4 * eps * mag * TOL_SCALE.get(self.cfg['recipe'], 1.0)
 
     # -- call wrappers ---------------------------------------------------
     def call(self, what, fn):
@@ -301,6 +341,9 @@ class Run(object):
         snap = elem_snapshot(x) if SP.is_elem(x) else None
         with seams.allocator('zero'):
             r = op.range.element()
+            if o.get('olay', 'C') != 'C':
+                r = _relayout(r, o['olay'])
+                self.ctx.fired('layout-out-' + o['olay'])
         used = fill_elem(r, o['fill'], salt=i)
         self.ctx.fired('out-' + str(used))
         fired = {}
@@ -338,6 +381,9 @@ class Run(object):
             raise Reject('reference raises')
         with seams.allocator('zero'):
             y = x.copy()
+            if o.get('olay', 'C') != 'C':
+                y = _relayout(y, o['olay'])
+                self.ctx.fired('layout-out-' + o['olay'])
         out = y[o.get('j', 0)] if lincomb else y
         fired = {}
         with seams.allocator(self.k1, salt=24, fired=fired):
